@@ -55,8 +55,8 @@ PROPS["C03"] = dict(
     timeout_quick=900, timeout_thorough=2400,
     bounds="every integer harness ranges over the function's complete input domain (u8^2 for channel kernels, "
            "2^72 for normal/merge/mode(b,s,o)); no loop bound is involved",
-    outside="the float helpers luminosity / set_saturation / set_luminocity of the four HSL modes (only the structure around them and "
-            "`saturation` are decided); the variant->function dispatch table (Kani cannot compile it); 'through the public rendering API' is "
+    outside="the arithmetic of the float helpers luminosity / set_saturation / set_luminocity of the four HSL modes off eight witness "
+            "points (decided: the structure around them, `saturation`, the min/mid/max channel selection over all doubles); the variant->function dispatch table (Kani cannot compile it); 'through the public rendering API' is "
             "the rasteriser unit (pixel handed to the blend function, opacity product) plus the per-function results",
 )
 
